@@ -302,7 +302,7 @@ def check_pool_extreme(c, rec):
 def act_inf_cases(draw):
     n = draw(st.integers(1, 6))
     return {"act": draw(st.sampled_from(["relu", "leaky_relu", "selu", "tanh", "sigmoid"])), "form": draw(st.sampled_from(["fn", "module"])),
-            "v": [draw(st.sampled_from(["inf", "-inf", "-inf", 0.0, 1.5, -2.0, 1e30, -1e30])) for _ in range(n)], "dtype": draw(gen.DTYPES),
+            "v": [draw(st.sampled_from(["inf", "-inf", "-inf", 0.0, 1.5, -2.0, 1e30, -1e30, "nan"])) for _ in range(n)], "dtype": draw(gen.DTYPES),
             "slope": draw(st.sampled_from([0.01, 0.2]))}
 
 
@@ -324,7 +324,9 @@ def check_act_inf(c, rec):
                 "selu": lambda: nnops.SELU_SCALE * np.where(x64 > 0, x64, nnops.SELU_ALPHA * np.expm1(np.minimum(x64, 0.0))),
                 "tanh": lambda: np.tanh(x64), "sigmoid": lambda: np.where(x64 >= 0, 1 / (1 + np.exp(-np.abs(x64))), 1 - 1 / (1 + np.exp(-np.abs(x64))))}[a]()
     got = np.asarray(out.data, dtype=np.float64)
-    ok = np.where(np.isinf(want), got == want, np.abs(got - want) <= 1e-5 * np.maximum(1.0, np.abs(want)))
+    want = np.where(np.isnan(x64), np.nan, want)                 # NaN in, NaN out (max(0, NaN) is NaN in NumPy and PyTorch)
+    with np.errstate(all="ignore"):
+        ok = np.where(np.isnan(want), np.isnan(got), np.where(np.isinf(want), got == want, np.abs(got - want) <= 1e-5 * np.maximum(1.0, np.abs(want))))
     if got.shape != want.shape or not np.all(ok):
         i = int(np.argmin(ok))
         raise Violation("value", f"{a}({x[i]!r}) = {got[i]!r}, the limit is {want[i]!r}; {c}", region=a)
